@@ -566,8 +566,14 @@ def check(case):
                 arr[:] = labs
                 return sf.Index(arr, name=ix.name)
             return sf.IndexHierarchy.from_labels([tuple(t) for t in labs], name=ix.name) if labs else None
-        tw_ix = lib(_objectified, h0.index)
-        if not isinstance(tw_ix, Raised) and tw_ix is not None:
+        def _finer(ix):
+            # datetime64 labels held in a finer unit by the index class of that unit
+            if ix.depth == 1 and ix.values.dtype.kind == 'M':
+                return sf.IndexSecond(ix.values.astype('M8[s]'), name=ix.name)
+            return None
+        for tw_ix in (lib(_objectified, h0.index), lib(_finer, h0.index)):
+            if isinstance(tw_ix, Raised) or tw_ix is None:
+                continue
             tw = lib(lambda: h0.relabel(tw_ix) if kind == 'series' else h0.relabel(index=tw_ix))
             if not isinstance(tw, Raised):
                 same = must(lambda: h0 == tw, what='HE == twin with object labels')
@@ -575,8 +581,8 @@ def check(case):
                     if must(lambda: tw == h0, what='HE twin ==') is not True:
                         raise Failure('asymmetric', 'HE == twin with object labels holds in one direction only')
                     if must(hash, h0, what='hash(HE)') != must(hash, tw, what='hash(HE twin)'):
-                        raise Failure('hash', 'a == b but hash differs: labels %s against the same labels as Python objects in an object index' % type(h0.index).__name__)
-                    classes.append('he-twin-equal:' + type(h0.index).__name__)
+                        raise Failure('hash', 'a == b but hash differs: labels held by %s against the same labels held by %s' % (type(h0.index).__name__, type(tw.index).__name__))
+                    classes.append('he-twin-equal:%s/%s' % (type(h0.index).__name__, type(tw.index).__name__))
         hs = [lib(hash, h) for h in he]
         if any(isinstance(h, Raised) for h in hs):
             bad = next(h for h in hs if isinstance(h, Raised))
